@@ -38,8 +38,8 @@ package cache
 //@ spec func lifetime(rc int, na int, mt int) int = ite(rc == 3, 30, ite(rc == 2, 5, ite(rc == 0, ite(na == 0, ite(mt < 300, mt, 300), mt), 0)))
 
 //@ func saveRespToCache [C05, C10]
+//@   log saveRespToCache
 //@   requires r != nil && backend != nil && wfMsg(r) && okRRs(r.Extra)
-//@   modifies *
 //@   requires lazyCacheTtl <= 9223372036
 //@   ensures old(r.Truncated) ==> !result
 //@   ensures calls(GetMinimalTTL) <= 1 && (calls(GetMinimalTTL) == 1 ==> arg(GetMinimalTTL, 0, 0) == r)
